@@ -1,6 +1,7 @@
 import ScVerif.C11.LocksetLemmas
 import ScVerif.C11.Trace
 import ScVerif.C11.Chan
+import ScVerif.C11.Slice
 /-!
 C11 — property theorems (claim level: **partial**, see props/C11.json).
 
@@ -188,5 +189,49 @@ theorem C11_grouped_check_complete (tbl : List Access) (hs : sortedByField tbl) 
 example : raceFreeG [Access.mk 0 .R 0 [(0, .shared)] .live 0 [] [], Access.mk 0 .W 1 [(0, .excl)] .live 0 [] [],
     Access.mk 3 .W 2 [] .init 0 [] []] = true :=
   C11_grouped_check_complete _ ((sortedByFieldB_iff _).mp (by decide)) (by decide)
+
+/-! ### Caller-owned slices: what an in-place `append` does (`Slice.lean`, the meaning of the `arg:` rows) -/
+
+/-- Whatever `append` writes into the existing backing array lies in that array, BEHIND the part the caller
+can see (`len ≤ cell`) and inside its capacity — which is why no caller-visible value changes and a test
+that looks at values cannot notice the aliasing. -/
+theorem C11_append_writes_behind_len (s : Slice) (n : Nat) :
+    ∀ c ∈ appendWrites s n, c.1 = s.arr ∧ s.len ≤ c.2 ∧ c.2 < s.cap := by
+  intro c hc
+  have h := appendWrites_mem hc
+  exact ⟨h.2.1, h.2.2.1, by omega⟩
+
+/-- Two calls (on any two goroutines) that each append at least one element to the SAME slice header with
+room for it write a common cell, `len`, of the shared backing array: a write/write conflict whatever the
+numbers of elements — the shape of `opts = append(opts, o)` on a caller's option slice and of
+`append(mask.GetPaths(), p...)` on a caller's mask. -/
+theorem C11_append_spare_capacity_conflicts (s : Slice) (n m : Nat) (hn : 0 < n) (hm : 0 < m)
+    (hsn : s.len + n ≤ s.cap) (hsm : s.len + m ≤ s.cap) :
+    ∃ c, c ∈ appendWrites s n ∧ c ∈ appendWrites s m :=
+  ⟨(s.arr, s.len), appendWrites_first hn hsn, appendWrites_first hm hsm⟩
+
+/-- the hypotheses are satisfiable: three paths in an array of four (a mask decoded from the wire) -/
+example : ∃ c, c ∈ appendWrites ⟨7, 3, 4⟩ 1 ∧ c ∈ appendWrites ⟨7, 3, 4⟩ 1 :=
+  C11_append_spare_capacity_conflicts ⟨7, 3, 4⟩ 1 1 (by decide) (by decide) (by decide) (by decide)
+
+/-- The repair the extractor accepts: appending to `s[:len(s):len(s)]` (or to any slice without room for
+the new elements) never writes the existing array, for every slice and every number of elements; the
+elements the result shares with `s` are only read. -/
+theorem C11_append_full_slice_private (s : Slice) (n : Nat) : appendWrites s.full n = [] := by
+  cases n with
+  | zero => simp [appendWrites]
+  | succ k => exact appendWrites_nil_of_no_room (by simp [Slice.full])
+
+/-- and conversely the in-place case is exactly "there is room": the model's decision, both ways -/
+theorem C11_append_in_place_iff (s : Slice) (n : Nat) (hn : 0 < n) :
+    appendWrites s n ≠ [] ↔ s.len + n ≤ s.cap := by
+  constructor
+  · intro h
+    cases hw : appendWrites s n with
+    | nil => exact absurd hw h
+    | cons c rest => exact (appendWrites_mem (c := c) (by simp [hw])).1
+  · intro h hnil
+    have := appendWrites_first hn h
+    simp [hnil] at this
 
 end ScVerif.C11
